@@ -130,7 +130,7 @@ func runCheck(id, tier string) int {
 		args := []string{"-test.run", "^TestVerif$", "-test.timeout", "0",
 			"-verif.prop", id, "-verif.tier", tier, "-verif.seed", strconv.FormatUint(seed, 10),
 			"-verif.shard", strconv.Itoa(i), "-verif.nshards", strconv.Itoa(nshards),
-			"-verif.secs", strconv.Itoa(secs), "-verif.out", out, "-verif.sites", b.sites,
+			"-verif.secs", strconv.Itoa(secs), "-verif.out", out, "-verif.sites", b.sites, "-verif.repo", repoDir,
 			"-verif.replaydir", replayDir, "-verif.known", filepath.Join(verifDir, "known_findings.json"),
 			"-verif.progress", filepath.Join(scratch, fmt.Sprintf("progress%d", i))}
 		if race {
@@ -382,7 +382,7 @@ func runReplay(id, path string) int {
 	}
 	abs, _ := filepath.Abs(path)
 	args := []string{"-test.run", "^TestVerif$", "-test.timeout", "0", "-verif.prop", id, "-verif.mode", "replay", "-verif.replay", abs,
-		"-verif.sites", b.sites, "-verif.trace", "-verif.known", filepath.Join(verifDir, "known_findings.json")}
+		"-verif.sites", b.sites, "-verif.repo", repoDir, "-verif.trace", "-verif.known", filepath.Join(verifDir, "known_findings.json")}
 	env := append(os.Environ(), "GOMAXPROCS=1")
 	if race {
 		scratch, err := os.MkdirTemp(envOr("VERIF_SCRATCH", "/var/tmp"), "verif-replay-")
